@@ -172,9 +172,37 @@ class Ctx:
         return r
 
     # ------------------------------------------------------------------ trace validation
-    def validate(self, files, module="TraceAbs.tla", cfg="TraceAbs.cfg", dfs=False, max_rej=12, soft_timeout=None):
+    def split_recordings(self, files, per_piece):
+        """Cuts recording files into pieces of at most per_piece recordings (a rejection costs one re-validation of
+        the rest of its piece, so files with many expected rejections - known findings - are validated in small pieces)."""
+        pieces = []
+        for f in files:
+            k, n, out = 0, 0, None
+            for line in open(f):
+                if '"e":"reset"' in line:
+                    if out is None or n >= per_piece:
+                        if out:
+                            out.close()
+                        k += 1
+                        n = 0
+                        pieces.append("%s.piece%d" % (f, k))
+                        out = open(pieces[-1], "w")
+                    n += 1
+                if out is None:
+                    k += 1
+                    pieces.append("%s.piece%d" % (f, k))
+                    out = open(pieces[-1], "w")
+                out.write(line)
+            if out:
+                out.close()
+            os.remove(f)
+        return pieces
+
+    def validate(self, files, module="TraceAbs.tla", cfg="TraceAbs.cfg", dfs=False, max_rej=12, soft_timeout=None, per_piece=None):
         """Validate recording files (ndjson, recordings start with a reset event) against the spec.
         Returns a list of rejections: dict(file, chunk_lines, at, recording_id)."""
+        if per_piece:
+            files = self.split_recordings(files, per_piece)
         def one(f):
             rejs = []
             cur = f
@@ -211,9 +239,14 @@ class Ctx:
                 rest = lines[end:]
                 if not rest or len(rejs) >= max_rej:
                     break
+                prev = cur
                 cur = f + ".rest%d" % len(rejs)
                 with open(cur, "w") as g:
                     g.write("\n".join(rest) + "\n")
+                if prev != f:
+                    os.remove(prev)
+            if cur != f and os.path.exists(cur):
+                os.remove(cur)
             return rejs
         nrec = nev = 0
         for f in files:
